@@ -6,6 +6,8 @@ def main():
     modname, inf, outf = sys.argv[1:4]
     warnings.filterwarnings('ignore')
     logging.disable(logging.CRITICAL)
+    from harness import nbcache
+    nbcache.acquire()
     from harness.core import _jsonable
     mod = importlib.import_module(modname)
     if hasattr(mod, 'init_worker'):
